@@ -587,7 +587,12 @@ def layer5() -> typing.List[Case]:
     for k, (tag, body, extra) in enumerate(single[:1] + single[4:5] + single[11:12]):
         sf.append((f"single_feature:{tag}:delimited", dict(extra, **{f"reg/SfD{k}.1.0.dsdl": body + "@extent 8192\n"})))
         sf.append((f"single_feature:{tag}:service_response", dict(extra, **{f"reg/SfS{k}.1.0.dsdl": "@sealed\n---\n" + body + "@sealed\n"})))
-    cases.append(dict(id="L5.single_feature", layer="L5", roots=["reg"], fixed={}, skeletons={}, members=file_members(sf, "single_feature"), core_all=True))
+    cases.append(
+        dict(
+            id="L5.single_feature", layer="L5", roots=["reg"], fixed={}, skeletons={}, members=file_members(sf, "single_feature"),
+            core_cfgs=["c||on", "c||omit", "cpp|c++14|on", "cpp|c++14|omit", "cpp|c++17|omit", "py||on"],
+        )
+    )
 
     # constants of every primitive kind
     groups: typing.Dict[str, typing.List[typing.Tuple[str, str]]] = {}
@@ -797,6 +802,7 @@ def layer7() -> typing.List[Case]:
     # A word ending in a backslash positioned so that it ends at every column around the width at which the C++
     # templates wrap doc comments (120 columns minus indent and comment prefix): the text wrapper then makes it the
     # LAST word of a wrapped line, which must not become a line continuation.
+    hostile, members = members, []
     for end in range(84, 123):
         text = wrap_probe_text(end)
         members.append(dict(label=f"doc:wrap_backslash_end{end}@field", feature="doc:wrap_backslash@field", name=str(end), origin="doc_comment", lines={rel_f: [f"uint8 w{end} # {text}", ""]}))
@@ -813,21 +819,23 @@ def layer7() -> typing.List[Case]:
                 )
             )
     cases = []
-    for b in range(0, len(members), BATCH):
-        cases.append(
-            dict(
-                id=f"L7.doc.{b // BATCH}",
-                layer="L7",
-                roots=["reg"],
-                fixed={},
-                skeletons={
-                    rel_f: ["", "@sealed\n"],
-                    rel_c: ["", "@sealed\n"],
-                    rel_u: ["@union\nuint8 zza\nuint8 zzb\n", "@sealed\n"],
-                },
-                members=members[b : b + BATCH],
+    for family, lst, extra in (("doc", hostile, {}), ("wrap", members, {"langs": ["c", "cpp"]})):
+        for b in range(0, len(lst), BATCH):
+            cases.append(
+                dict(
+                    id=f"L7.{family}.{b // BATCH}",
+                    layer="L7",
+                    roots=["reg"],
+                    fixed={},
+                    skeletons={
+                        rel_f: ["", "@sealed\n"],
+                        rel_c: ["", "@sealed\n"],
+                        rel_u: ["@union\nuint8 zza\nuint8 zzb\n", "@sealed\n"],
+                    },
+                    members=lst[b : b + BATCH],
+                    **extra,
+                )
             )
-        )
     return cases
 
 
